@@ -71,6 +71,8 @@ M("c07-promote-right-parent", "C07", "promote-child forgets p->r->p = c",
 M("c07-push-ge", "C07", "push sifts up only while strictly greater than grandparent-level (stops one early on ties is fine) -> stops when equal to size threshold",
   (HP, "        while (n->p != NULL\n               && __cstl_bintree_cmp(&h->bt, n, n->p) > 0) {",
    "        while (n->p != NULL && n->p->p != NULL\n               && __cstl_bintree_cmp(&h->bt, n, n->p) > 0) {"))
+M("c07-loc-short", "C07", "slot number narrowed to 16 bits (wrong from 65535 elements on)",
+  (HP, "    const unsigned int loc = id + 1;", "    const unsigned short loc = (unsigned short)(id + 1);"))
 # ----------------------------------------------------------------- C12
 M("c12-swap-anchor", "C12", "swap: re-anchor only the forward neighbour",
   (DL, "            L->h.n->p = L->h.p->n = &L->h;      \\", "            L->h.n->p = &L->h;                  \\"))
